@@ -92,7 +92,7 @@ fn do_row(
                 // device names that are a variable elsewhere in the program (in a loop that
                 // has ended, in another branch) are the interesting ones: prefer them
                 let elsewhere: Vec<&String> = pure_device.iter().copied().filter(|n| cx.bound_anywhere.contains(*n)).collect();
-                if !shadowing.is_empty() && cx.ch.chance(1, 4) {
+                if !shadowing.is_empty() && cx.ch.chance(1, 3) {
                     shadowing.clone()
                 } else if !elsewhere.is_empty() && cx.ch.chance(1, 2) {
                     elsewhere
